@@ -1104,6 +1104,11 @@ func (ev *evaluator) doCall(fr *frame, c *ssa.CallCommon, in ssa.Instruction, de
 		name := callee.String()
 		if obj != nil {
 			name = obj.FullName()
+		} else if callee.Origin() != nil {
+			if oo, ok := callee.Origin().Object().(*types.Func); ok {
+				name = oo.FullName()
+				obj = oo
+			}
 		}
 		if ev.spec.ExternEffect != nil && obj != nil {
 			if n, rec := ev.spec.ExternEffect(obj, c); rec {
@@ -1138,6 +1143,23 @@ func (ev *evaluator) doCall(fr *frame, c *ssa.CallCommon, in ssa.Instruction, de
 
 // libModel gives exact results for a few pure library functions on constants.
 func (ev *evaluator) libModel(name string, args []AV) (AV, bool) {
+	if strings.HasPrefix(name, "slices.Contains") && len(args) == 2 && args[0].K == avSlice {
+		// exact on a slice of known length: element-wise comparison
+		x := ev.force(args[1])
+		if x.K == avConst {
+			found := false
+			for i := 0; i < args[0].Len; i++ {
+				e := ev.force(ev.load(fmt.Sprintf("%s[%d]", args[0].Key, i), x.T))
+				if e.K != avConst {
+					return AV{}, false
+				}
+				if constant.Compare(e.C, token.EQL, x.C) {
+					found = true
+				}
+			}
+			return AV{K: avConst, C: constant.MakeBool(found), T: types.Typ[types.Bool]}, true
+		}
+	}
 	switch name {
 	case "strings.TrimSpace":
 		if len(args) == 1 {
